@@ -19,6 +19,7 @@ import time
 
 import vlib
 from props import c13gen as G
+from props import c13slow as SLOW
 
 KNOWN_KINDS = set(G.KINDS)
 CONFIGS = [dict(media=m, calls=c, validators=v) for m, c, v in itertools.product((0, 1), repeat=3)]
@@ -39,6 +40,8 @@ class Item:
             return "ak %s" % (self.raw.hex() or "-")
         if self.op == "probe":
             return "probe"
+        if self.op in ("clog", "unclog"):
+            return "%s %s" % (self.op, self.sess)
         return "%s %s %s" % (self.op, self.sess, self.raw.hex() or "-")
 
     def show(self):
@@ -70,7 +73,40 @@ def shape_of(m):
             str(b.get("tmpscheme", ""))[:8] if k == "acc" else "", str(b.get("user", ""))[:3] if k == "acc" else "")
 
 
+def slow_item(sess, m):
+    return Item("in", sess, G.dumps(m), shape_of(m), msg=m, gen="slow-consumer")
+
+
+def clog_item(op, sess):
+    return Item(op, sess, b"", (op,), gen="slow-consumer")
+
+
+WINDOW_NO = [0]
+
+
 def gen_group(rng, n, profile):
+    """n generated inputs; two clog / traffic / unclog triples (tools/props/c13slow.py) are inserted at random
+    positions of EVERY group, so that every run has connections with a full send queue under every kind of traffic."""
+    items = gen_plain(rng, n, profile)
+    for _ in range(2):
+        WINDOW_NO[0] += 1
+
+        def gen_any(sess):
+            m = G.gen_msg(rng, G.pick(rng, G.KINDS))
+            return Item("in", sess, G.dumps(m), shape_of(m), msg=m, gen="structured")
+        w = SLOW.window(rng, slow_item, clog_item, gen_any, WINDOW_NO[0])
+        at = rng.randrange(len(items) + 1)
+        depth = 0          # not inside the window inserted before
+        for it in items[:at]:
+            depth += 1 if it.op == "clog" else -1 if it.op == "unclog" else 0
+        if depth == 0:
+            items[at:at] = w
+        else:
+            items += w
+    return items
+
+
+def gen_plain(rng, n, profile):
     items = []
     for _ in range(n):
         sess = rng.choices(G.SESSIONS, G.SESS_W)[0]
@@ -157,7 +193,7 @@ def canonical_groups():
 
 # ---------------- running the driver ----------------
 
-R_RE = re.compile(r"^r (\d+) (\S+) dec=(\S+) id=(\S+) topic=(\S+) st=(\S+) res=(\S+) term=(\d) frames=(\S+) others=(\d+)$")
+R_RE = re.compile(r"^r (\d+) (\S+) dec=(\S+) id=(\S+) topic=(\S+) st=(\S+) res=(\S+) term=(\d) frames=(\S+) others=(\d+)(?: cl=(\d) ev=(\S+))?$")
 
 
 def unhx(h):
@@ -256,10 +292,14 @@ def run_driver(ctx, cfg, groups, tag):
             if w[2] == "ak":
                 results[k] = {"ak": " ".join(w[3:])}
                 continue
+            if w[2] in ("clog", "unclog"):
+                results[k] = {"clog": w[4] if len(w) > 4 else "?", "op": w[2]}
+                continue
             m = R_RE.match(l)
             if m:
                 results[k] = dict(sess=m.group(2), dec=m.group(3), id=unhx(m.group(4)), topic=unhx(m.group(5)), st=m.group(6), res=m.group(7),
-                                  term=m.group(8) == "1", frames=parse_frames(m.group(9)), others=int(m.group(10)))
+                                  term=m.group(8) == "1", frames=parse_frames(m.group(9)), others=int(m.group(10)),
+                                  cl=m.group(11) == "1", ev=[] if m.group(12) in (None, "-") else m.group(12).split("+"))
             else:
                 # HANG lines have no term/frames part
                 results[k] = dict(sess=w[2], dec="?", id="", topic="", st="", res=[x for x in w if x.startswith("res=")][0][4:], term=False, frames=[], others=0, fatal=True)
@@ -313,6 +353,14 @@ def monitor(cfg, group, items, results):
             if r["probe"] != "ok":
                 yield ("bystander-not-served", k, r["probe"])
             continue
+        if "clog" in r:
+            # the driver's own sanity: a frame entered a full buffer / the server does not come to rest after the
+            # connection reads again
+            if r["clog"].startswith("CLOGLEAK"):
+                yield ("slow-consumer-driver", k, "a frame entered a send buffer that was full: " + r["clog"])
+            elif r["clog"].startswith("HANG"):
+                yield ("slow-consumer-hang", k, "after a stuck connection reads again the server does not come to rest: " + r["clog"])
+            continue
         if "ak" in r:
             if r["ak"].startswith("PANIC"):
                 site = re.search(r"site=(\S+)", r["ak"]).group(1)
@@ -323,6 +371,10 @@ def monitor(cfg, group, items, results):
             yield ("read-loop-panic@" + site, k, "panic in the session's read-loop goroutine (no recover in production: the server process dies): " + unhx(msg))
             continue
         if r["term"] or r["dec"] in ("probe1", "pberr", "pbpanic"):
+            continue
+        if r.get("cl"):
+            # the requesting connection is stuck: its replies cannot be queued (Session.queueOut fails on the full
+            # buffer) and nothing can be observed on it; only crashes, hangs and the bystander are checked
             continue
         dec = r["dec"]
         kind = dec.split("/")[0]
@@ -361,8 +413,8 @@ def unsolicited(f):
 
 def fuzz(ctx, stats):
     quick = ctx.tier == "quick"
-    n_groups = 16 if quick else 160
-    glen = 60 if quick else 80
+    n_groups = 13 if quick else 160       # 13 x (54 + 2 windows of ~9) = as many generated inputs per configuration as the 16 x 60 of earlier rounds
+    glen = 54 if quick else 80         # + two slow-consumer windows of ~9 inputs in every group
     max_restarts = 12 if quick else 60
     total_eval = 0
     if ctx.replay:
@@ -376,7 +428,7 @@ def fuzz(ctx, stats):
             rp = json.load(open(ctx.replay))["replay"]
             groups = [[Item(i["op"], i["session"], bytes.fromhex(i["hex"]), ("replay",), gen="replay") for i in rp["inputs"]]]
         else:
-            groups = canonical_groups() + (lifecycle_groups() if ci == 0 or not quick else [])
+            groups = canonical_groups() + (lifecycle_groups() if ci == 0 or not quick else []) + (SLOW.slow_groups(slow_item, clog_item) if ci == 0 or not quick else [])
             for gi in range(n_groups):
                 groups.append(gen_group(rng, glen, ["mixed", "mixed", "structured", "raw"][gi % 4] if gi % 8 != 7 else "raw"))
         crashed_shapes = {}
@@ -410,7 +462,7 @@ def fuzz(ctx, stats):
                     if r is not None:
                         account(stats, cfg, it, r)
                         total_eval += 1
-                        if it.msg is not None and "dec" in r:
+                        if it.msg is not None and "dec" in r and not r.get("cl"):
                             stats.setdefault("model_cases", []).append((cfg, it, r))
             if not fatal:
                 break
@@ -463,7 +515,12 @@ def minimise(ctx, cfg, items, law, fatal_site=None):
         if fatal_site is not None:
             return fatal is not None and fatal["site"] == fatal_site
         return any(l == law for l, _, _ in monitor(cfg, cand, flat, results))
-    for cand in ([items[-1]], items[-2:], items[-4:]):
+    cands = [[items[-1]], items[-2:], items[-4:]]
+    if any(it.op == "clog" for it in items):
+        # slow consumers: the clog / unclog operations of the prefix are kept in front of the last inputs
+        for k in (1, 2, 4, 8):
+            cands.append([it for it in items[:-k] if it.op in ("clog", "unclog")] + items[-k:])
+    for cand in cands:
         if len(cand) < len(items) and reproduces(cand):
             return cand
     return items
@@ -477,6 +534,15 @@ def account(stats, cfg, it, r):
         t[key] = t.get(key, 0) + 1
     inc("by_config", cfg_name(cfg))
     inc("by_generator", it.gen)
+    if "clog" in r:
+        inc("slow_consumer", "%s %s" % (r["op"], r["clog"]))
+        return
+    if r.get("cl"):
+        inc("slow_consumer", "requests sent by a stuck connection")
+    for c in r.get("ev", []):
+        # attachments a stuck connection lost while this request was handled, by the kind of the request and the
+        # category of the topic it was detached from (the request's own {leave} included)
+        inc("slow_consumer_detached", "%s%s -> %s" % ("own " if r.get("cl") else "", r["dec"].split("/")[0], c))
     if "probe" in r or "ak" in r:
         inc("by_kind", it.op)
         return
@@ -512,8 +578,16 @@ def run(ctx):
         ctx.violation("corr", "harness-build-broken", "package-main driver no longer builds against the repository: " + out[-1500:],
                       {"correspondence": "build of harness/overlay against server/"})
         ctx.finish()
-    fuzz(ctx, stats)
+    x_replay = bool(ctx.replay) and json.load(open(ctx.replay)).get("replay", {}).get("part") == "c13x"
+    if not x_replay:
+        fuzz(ctx, stats)
     t_fuzz = time.time() - t0
+    if x_replay or not ctx.replay:
+        # slow consumers / request slot and held topic load: structured driver + models Inflight.v, HeldLoad.v
+        from props import c13x
+        t1 = time.time()
+        c13x.run_part(ctx, stats)
+        stats["c13x"]["wall_s"] = round(time.time() - t1, 1)
     if not ctx.replay:
         from props import c13drafty
         c13drafty.run(ctx, stats, have_model=have_coq)
@@ -523,21 +597,29 @@ def run(ctx):
     d = stats["dist"]
     kinds = d.get("by_kind", {})
     total = max(1, sum(kinds.values()))
+    if not ctx.replay:
+        # every broadcast path must have met a full send queue in this run (coverage note, not a verdict)
+        det = d.get("slow_consumer_detached", {})
+        for need in ("pub -> grp", "pub -> me", "pub -> p2p", "note -> grp", "set -> me", "del -> grp"):
+            if not det.get(need):
+                ctx.notes.append("slow consumers: no stuck connection was detached by '%s' in this run" % need)
     ctx.coverage.update({
         "split": {
             "proof_half": "obligations/discharged below count the theorems of coq/Props/PropC13.v (modelled panic sites, reply totality, id echo, error-not-silence at session/hub routing level); model tied to the code by the extracted-model correspondence run (model_correspondence)",
             "proof_half_drafty": "theorems c13_drafty_* over coq/Pure/Drafty.v (toTree / forEach / PlainText / Preview never panic, for every decoded document); tied to the code by running the extracted model and drafty.PlainText / drafty.Preview on the same generated documents (drafty_fuzz: outcome class, plain text, preview compared; law drafty-panic on the implementation's answers)",
-            "testing_half": "evaluations/input_distribution below are the malformed-stream fuzz (TestVerifFuzz): TESTING IN SUPPORT, no proof about Go code outside the two models",
+            "proof_half_slot_and_held_load": "theorems c13_inflight_* / c13_evict_without_init_test_* over coq/Sys/Inflight.v (every Add / Done site of Session.inflightReqs incl. the slow-consumer drop of broadcastToSessions, as an interleaving model) and c13_held_load_* over coq/Sys/HeldLoad.v (requests queued for a topic that is being loaded; who is answered with which id when the load ends); tied to the code by the structured driver TestVerifC13x (slow_consumers_and_held_load below: state after every operation / frames per session compared with the extracted models; laws inflight-slot-not-free, id-echo-held-load, unanswered-held-*, answered-twice-held-* on the implementation's trace)",
+            "testing_half": "evaluations/input_distribution below are the malformed-stream fuzz (TestVerifFuzz, now with slow consumers: connections whose send queue is full): TESTING IN SUPPORT, no proof about Go code outside the models",
         },
         "evaluations": stats["evaluations"] + stats.get("drafty", {}).get("evaluations", 0),
         "distinct_nontrivial": len(stats["nontrivial"]),
-        "rule": "per configuration of (media handler, calls, validators) in {0,1}^3: corpus of confirmed triggers, then seeded groups of %s inputs (profiles mixed/structured/raw) over sessions in states nohi/hi/in/att/peer/root of a population rebuilt per group through the real {sub}/{pub} paths; structured = all ten kinds with every field drawn from boundary pools (tools/props/c13gen.py); raw = random bytes, truncated/mutated JSON, wrong types, nesting up to 100000, huge/ill-formed numbers, invalid UTF-8, duplicate/upper-case keys, multi-kind messages; plus protobuf ClientMsg through pbCliDeserialize and API keys through checkAPIKey; non-trivial = accepted (2xx or meta/data answer)" % ("60" if ctx.tier == "quick" else "80"),
+        "rule": "per configuration of (media handler, calls, validators) in {0,1}^3: corpus of confirmed triggers, then seeded groups of %s inputs (profiles mixed/structured/raw) over sessions in states nohi/hi/in/att/peer/root of a population rebuilt per group through the real {sub}/{pub} paths; structured = all ten kinds with every field drawn from boundary pools (tools/props/c13gen.py); raw = random bytes, truncated/mutated JSON, wrong types, nesting up to 100000, huge/ill-formed numbers, invalid UTF-8, duplicate/upper-case keys, multi-kind messages; plus protobuf ClientMsg through pbCliDeserialize and API keys through checkAPIKey; non-trivial = accepted (2xx or meta/data answer)" % ("54+18" if ctx.tier == "quick" else "80+18"),
         "traces_validated_against_impl": stats["evaluations"],
         "input_distribution": dict(d, share_rejected_at_json_level=round(kinds.get("(json rejected)", 0) / total, 4)),
         "fuzz_wall_s": round(t_fuzz, 1),
         "server_crashes": stats["crashes"][:20], "configs_aborted_after_restart_cap": stats["aborted_configs"],
         "inputs_skipped_because_their_shape_already_crashed": stats["skipped_after_crash"],
         "drafty_fuzz": stats.get("drafty"),
+        "slow_consumers_and_held_load": stats.get("c13x"),
         "model_correspondence": stats.get("model"),
         "open_statements": [
             "c13_no_panic_statement (code as it is): REFUTED by the model and by the implementation (c13_no_panic_refuted, c13_witnesses); the full theorem c13_no_panic holds for the code after findings/C13_*.diff only",
@@ -545,11 +627,16 @@ def run(ctx):
             "exactness of the trigger predicate (trigger -> panic) is shown by one witness per site, not for all inputs",
             "error code >= 400 for ill-formed / non-existent topic names is not stated: the implementation answers 3xx in some paths (reply, not silence)",
             "c13_drafty_unrepaired_statement (range check before /repo 6cc931e) and c13_default_access_unrepaired_statement (getDefaultAccess before /repo f52b053): REFUTED by vm_compute witnesses; both repairs are in /repo, the full theorems hold for the code as it is",
-            "panic-freedom of Go code outside the two models (JSON decoding, in-topic handlers below the modelled sites, store mappers, auth handlers, push adapters): not provable here, fuzz only",
+            "c13_evict_without_init_test_statement (Topic.unregisterSession without the test of msg.init): REFUTED by a vm_compute witness; the code as it is has the test, the full theorem c13_inflight_no_panic holds",
+            "c13_held_load_join_id_statement (clientMsg drain of topicInit answering with join.Id): REFUTED by a vm_compute witness; the code as it is answers with msg.Id, c13_held_load_id_echo holds",
+            "c13_held_load_answered_statement (code as it is): REFUTED by the model and on the implementation (known findings unanswered-sub-p2p-deleted-while-loading, unanswered-deltopic-owner-while-loading; topicinit-stuck-p2p-deleted-while-loading is outside the models); c13_held_load_answered_partial proved",
+            "Inflight.v has no topic unload / deletion / re-creation (C14's model); HeldLoad.v models ONE load; reply codes below the routing level are an oracle",
+            "panic-freedom of Go code outside the models (JSON decoding, in-topic handlers below the modelled sites, store mappers, auth handlers, push adapters): not provable here, fuzz only",
         ],
         "trusted_base": [
             "harness/overlay/server/zz_verif_c13_test.go (population, recover wrapper = stand-in for the recover-less read loops, quiescence detector of zz_verif_topic_test.go, stub media handler / validator), memverif adapter",
-            "tools/props/c13.py monitors (python restatement of the property on the implementation's answers), c13gen.py generators",
+            "tools/props/c13.py monitors (python restatement of the property on the implementation's answers), c13gen.py / c13slow.py generators",
+            "harness/overlay/server/zz_verif_c13x_test.go (clog = the session's drain loop stopped and its send buffer filled to capacity; held load = memverif call hook zz_hook.go parking the first adapter call made after the {sub}; hub-level quiescence while the load is held), harness/runner/r_c13x.ml (mapping of driver operations to model labels; presence broadcasts' choice of stuck connections taken from the implementation), tools/props/c13x.py (laws, comparison)",
             "harness/ext/c13.go (drafty.PlainText / Preview each under recover; its re-implementation of decodeAsDrafty / decodeAsStyle / decodeAsEntity and the uniseg segmentation hand the model the decoded document), harness/runner/r_c13d.ml, tools/props/c13drafty.py (comparison, TrimSpace applied to the model's text)",
             "NOT proved: panic-freedom of Go code outside the two models (encoding/json, drafty's decoder and copyLight, topic handlers below the modelled sites, store mappers, auth handlers): covered only by the fuzz runs above",
         ],
